@@ -9,7 +9,7 @@ use serde_json::{json, Value};
 pub const DEF: PropDef = PropDef {
     id: "C14",
     level: "exploration",
-    rule: "all ordered pairs of the 75-value universe U (every kind and coercion boundary); for each pair ~30 one-line programs are executed on the real interpreter (and the same cells on rrss::exec::val::Val) and only relations between their results are checked (symmetry, negation, converse orderings incl. error<=>error, antisymmetry vs equality, logic vs truthiness, compound assignment vs its expansion (12 operator spellings incl. + - * / x 7 operand forms: variable, literal, pronoun, lists, the target itself), build-k/knock-k round trip for k=1..4); non-trivial = every case (each compares at least two executions); distinct = distinct (law family, a, b)",
+    rule: "all ordered pairs of the 75-value universe U (every kind and coercion boundary); for each pair ~30 one-line programs are executed on the real interpreter (and the same cells on rrss::exec::val::Val) and only relations between their results are checked (symmetry, negation, converse orderings incl. error<=>error, antisymmetry vs equality, logic vs truthiness, say a prints the text of the empty string plus a, compound assignment vs its expansion (12 operator spellings incl. + - * / x 7 operand forms: variable, literal, pronoun, lists, the target itself), build-k/knock-k round trip for k=1..4); non-trivial = every case (each compares at least two executions); distinct = distinct (law family, a, b)",
     assumptions: &["relational oracle: no expected values, so it cannot inherit a table error from the code", "values outside U are not covered"],
     build,
     exhaustive: true,
@@ -175,6 +175,16 @@ impl Check for C14 {
                     law("`not a and b` = (not a) and b; `not a or not b` = not (a and b)", as_bool(&not_and) == Some(!tx && ty) && as_bool(&not_or) == Some(!(tx && ty)), format!("{:?} {:?}", not_and, not_or));
                 } else {
                     law("truthiness is observable through `if`", false, format!("{:?} {:?}", tx, ty));
+                }
+                // one canonical text per value: what say prints is what joining with the empty string gives
+                if !matches!(u_value(a), crate::refmodel::value::V::Arr(_)) {
+                    let said = run(&ctor(a, "x"), "say x\n", ctx);
+                    let joined = run(&ctor(a, "x"), "say \"\" plus x\n", ctx);
+                    if let (Some(p), Some(q)) = (&said, &joined) {
+                        if b == 0 && p != q {
+                            fails.push(format!("`say a` prints {:?} but `say \"\" plus a` prints {:?} for a={}: a value has one canonical text", p, q, la));
+                        }
+                    }
                 }
                 for f in fails {
                     ctx.violation("law-broken", f);
